@@ -194,6 +194,22 @@ class Pair:
         self.world.stop = True
 
 
+def expected_block_strings(equipment: bool, device_id: int, system: int, stream: int, function: int, w: bool, body: bytes):
+    """what E4 and the ROLE say must be on the line, built without any secsgem code: R-bit = sender is the equipment, the sender's device id,
+    W-bit as asked, blocks numbered 1..n of at most 244 bytes, E-bit on the last; same string format as `show_block`"""
+    chunks = [body[i:i + 244] for i in range(0, len(body), 244)] or [b""]
+    return [f"{system} {device_id} {stream} {function} {i + 1} {int(equipment)} {int(bool(w))} {int(i + 1 == len(chunks))} {hexs(c)}"
+            for i, c in enumerate(chunks)]
+
+
+def check_role_header(res, small, messages, direction, sender):
+    """every delivered message carries the R-bit of the sender's ROLE and the sender's device id"""
+    want = (int(direction == "E2H"), int(sender._settings.device_id))
+    bad = [(int(m.header.from_equipment), int(m.header.device_id)) for m in messages if (int(m.header.from_equipment), int(m.header.device_id)) != want]
+    if bad:
+        res.violate("c17-header-on-line", "a delivered message does not carry the R-bit of the sender's role / the sender's device id", small, want, bad[:3])
+
+
 def expected_blocks(proto, fn, system):
     msg = proto._create_message_for_function(fn, system)
     return msg, list(msg.blocks)
@@ -272,8 +288,25 @@ def run_case(cx, case):
             res.violate("c17-not-delivered-intact", "send reported success but nothing at all was transmitted (the message has no blocks)",
                         dict(case, blocks=0), {"system": case["system"], "len": len(body)}, "no transmission")
         elif r is True:
-            ok = len(got) == 1 and bytes(got[0].data) == body and all(
-                int(getattr(got[0].header, f)) == int(getattr(msg.header, f)) for f in ("system", "device_id", "stream", "function", "from_equipment", "require_response"))
+            sender_is_equipment = direction == "E2H"
+            dev = sender._settings.device_id
+            want_line = expected_block_strings(sender_is_equipment, dev, case["system"], case["stream"], case["function"], case["w"], body)
+            on_line = []
+            for (n, d) in transcript:
+                if n == "a" and len(d) > 1:
+                    try:
+                        blk = SecsIBlock.decode(d)
+                    except Exception:  # noqa: BLE001
+                        blk = None
+                    on_line.append("undecodable " + d.hex()[:40] if blk is None else show_block(blk))
+            if on_line != want_line:
+                res.violate("c17-header-on-line", "the blocks on the line do not carry the header the sender was asked to send (role => R-bit, device id, "
+                            "W-bit, S/F, system bytes, block numbers, E-bit) and the body", small, [x[:70] for x in want_line][:4], [x[:70] for x in on_line][:4])
+            want_hdr = (case["system"], dev, case["stream"], case["function"], int(sender_is_equipment), int(bool(case["w"])))
+            got_hdr = [tuple(int(getattr(m.header, f)) for f in ("system", "device_id", "stream", "function", "from_equipment", "require_response")) for m in got]
+            ok = len(got) == 1 and bytes(got[0].data) == body and got_hdr == [want_hdr]
+            if not ok:
+                small = dict(small, want_header=want_hdr, got_header=got_hdr)
             if not ok:
                 res.violate("c17-not-delivered-intact", "send reported success but the peer did not receive exactly one identical message", small,
                             {"system": case["system"], "len": len(body)}, [(m.header.system, len(m.data)) for m in got])
@@ -444,6 +477,7 @@ def run_concurrent(cx, case):
         if hung:
             res.violate("c17-wedged", "concurrent send calls did not return on a perfect line", small, None, hung)
             return interleaved
+        check_role_header(res, small, got, direction, sender)
         for i, fn in enumerate(fns):
             r = results.get(i)
             if isinstance(r, Exception):
@@ -619,6 +653,7 @@ def run_same_system(cx, case):
                         "delivered exactly once, intact, in order", small, [(a_, b_, len(c_)) for a_, b_, c_ in want], [(a_, b_, len(c_)) for a_, b_, c_ in have])
         if any(m.header.system != case["system"] for m in got):
             res.violate("c17-not-delivered-intact", "delivered with different system bytes", small)
+        check_role_header(res, small, got, direction, sender)
         line_blocks = []
         for (n, d) in transcript:
             if n == "a" and len(d) > 1:
